@@ -86,6 +86,7 @@ package socks5
 
 //@ func (*Handler).Handle
 //@ prop C21
+//@ modifies *
 //@ after[C21,C23] call authenticate let authErr = $ret1
 //@ after[C23] call readRequest let reqErr = $ret1
 //@ after[C23] call readRequest let reqCmd = $ret0.Command
@@ -101,6 +102,7 @@ package socks5
 
 //@ func NewServer
 //@ prop C21
+//@ modifies *
 //@ ensures len(cfg.Authenticators) > 0 ==> result.handler.authenticators == cfg.Authenticators
 //@ ensures len(result.handler.authenticators) > 0
 
@@ -141,11 +143,13 @@ package socks5
 
 //@ func (*Handler).handleConnect
 //@ prop C23
+//@ modifies *
 //@ at call Dialer.DialContext assert $3 == joinHostPort(old(req.DestAddr), itoa(old(req.DestPort)))
 //@ at call (*Handler).sendReply assume $3 == nil || len($3) == 4 || len($3) == 16
 //@ note the assume above is A8: a net.TCPAddr reported by the standard library holds a 4- or 16-byte IP
 
 //@ func (*Handler).sendReplyForError
 //@ prop C23
+//@ modifies *
 
 //@ census[C23] Dialer.DialContext in (*Handler).handleConnect
